@@ -5,112 +5,112 @@ From Verif Require Import Base.Skel.
 Open Scope string_scope.
 
 Definition expected_ops_NewOnceConstructor : list sk :=
-  [SPrim (POp "lit-field" "loaders: &sync.Map{}"); SPrim (POp "lit-field" "new: newFunc"); SReturn].
+  [SPrim (POp "lit-field" "%1: &sync.Map{}"); SPrim (POp "lit-field" "%2: $1"); SReturn].
 
 Definition expected_ops_OnceConstructor_Get : list sk :=
-  [SPrim (POp "call" "@.loaders.Load"); SPrim (POp "if" "inited"); SIf [SPrim (POp "call" "loaderVal.(func() (v V))"); SReturn] []; SPrim (POp "make-chan" "1"); SPrim (POp "send" "done"); SPrim (POp "func-begin" ""); SPrim (POp "recv" "done"); SPrim (POp "if" "ok"); SIf [SPrim (POp "call" "@.new"); SPrim (POp "close" "done")] []; SReturn; SPrim (POp "func-end" ""); SPrim (POp "call" "@.loaders.LoadOrStore"); SPrim (POp "call" "loaderVal.(func() (v V))"); SReturn].
+  [SPrim (POp "call" "@.%1.Load"); SPrim (POp "if" "$1"); SIf [SPrim (POp "call" "$2.(func() ($3 V))"); SReturn] []; SPrim (POp "make-chan" "1"); SPrim (POp "send" "$4"); SPrim (POp "func-begin" ""); SPrim (POp "recv" "$4"); SPrim (POp "if" "$5"); SIf [SPrim (POp "call" "@.%2"); SPrim (POp "close" "$4")] []; SReturn; SPrim (POp "func-end" ""); SPrim (POp "call" "@.%1.LoadOrStore"); SPrim (POp "call" "$2.(func() ($3 V))"); SReturn].
 
 Definition expected_ops_NewChanSemaphore : list sk :=
-  [SPrim (POp "make-chan" "maxRes"); SPrim (POp "lit-field" "c: make(chan unit, maxRes)"); SReturn].
+  [SPrim (POp "make-chan" "$1"); SPrim (POp "lit-field" "%1: make(chan unit, $1)"); SReturn].
 
 Definition expected_ops_ChanSemaphore_Acquire : list sk :=
-  [SPrim (POp "select" "send @.c | recv ctx.Done()"); SIf [SReturn] [SIf [SPrim (POp "call" "ctx.Done"); SPrim (POp "call" "ctx.Err"); SReturn] []]].
+  [SPrim (POp "select" "send @.%1 | recv $1.Done()"); SIf [SReturn] [SIf [SPrim (POp "call" "$1.Done"); SPrim (POp "call" "$1.Err"); SReturn] []]].
 
 Definition expected_ops_ChanSemaphore_Release : list sk :=
-  [SPrim (POp "select" "recv @.c | default"); SIf [] [SIf [] []]].
+  [SPrim (POp "select" "recv @.%1 | default"); SIf [] [SIf [] []]].
 
 Definition expected_ops_SignalHandler_Handle : list sk :=
-  [SPrim (POp "defer" "slogutil.RecoverAndLog"); SPrim (POp "range" "@.signal"); SLoop [SPrim (POp "call" "@.logger.InfoContext"); SPrim (POp "call" "osutil.IsShutdownSignal"); SPrim (POp "if" "osutil.IsShutdownSignal(sig)"); SIf [SPrim (POp "call" "context.WithTimeout"); SPrim (POp "defer" "cancel"); SPrim (POp "call" "@.shutdown"); SReturn] []]].
+  [SPrim (POp "defer" "slogutil.RecoverAndLog"); SPrim (POp "range" "@.%2"); SLoop [SPrim (POp "call" "@.%1.InfoContext"); SPrim (POp "call" "osutil.IsShutdownSignal"); SPrim (POp "if" "osutil.IsShutdownSignal($1)"); SIf [SPrim (POp "call" "context.WithTimeout"); SPrim (POp "defer" "$2"); SPrim (POp "call" "@.shutdown"); SReturn] []]].
 
 Definition expected_ops_SignalHandler_shutdownService : list sk :=
-  [SPrim (POp "defer-func-begin" ""); SPrim (POp "call" "recover"); SPrim (POp "if" "v != nil"); SIf [SPrim (POp "call" "slogutil.PrintRecovered"); SPrim (POp "call" "fmt.Errorf")] []; SPrim (POp "defer-func-end" ""); SPrim (POp "call" "s.Shutdown"); SReturn].
+  [SPrim (POp "defer-func-begin" ""); SPrim (POp "call" "recover"); SPrim (POp "if" "$1 != nil"); SIf [SPrim (POp "call" "slogutil.PrintRecovered"); SPrim (POp "call" "fmt.Errorf")] []; SPrim (POp "defer-func-end" ""); SPrim (POp "call" "$2.Shutdown"); SReturn].
 
 Definition expected_ops_SignalHandler_shutdown : list sk :=
-  [SPrim (POp "call" "@.logger.InfoContext"); SPrim (POp "assign" "status = osutil.ExitCodeSuccess"); SPrim (POp "for" "i >= 0"); SLoop [SPrim (POp "call" "@.shutdownService"); SPrim (POp "if" "err == nil"); SIf [SPrim (POp "branch" "continue")] []; SPrim (POp "call" "@.logger.ErrorContext"); SPrim (POp "assign" "status = osutil.ExitCodeFailure")]; SPrim (POp "call" "@.logger.InfoContext"); SReturn].
+  [SPrim (POp "call" "@.%1.InfoContext"); SPrim (POp "assign" "$1 = osutil.ExitCodeSuccess"); SPrim (POp "for" "$3 >= 0"); SLoop [SPrim (POp "call" "@.shutdownService"); SPrim (POp "if" "$2 == nil"); SIf [SPrim (POp "branch" "continue")] []; SPrim (POp "call" "@.%1.ErrorContext"); SPrim (POp "assign" "$1 = osutil.ExitCodeFailure")]; SPrim (POp "call" "@.%1.InfoContext"); SReturn].
 
 Definition expected_ops_NewRefreshWorker : list sk :=
-  [SPrim (POp "make-chan" "0"); SPrim (POp "lit-field" "done: make(chan unit)"); SPrim (POp "call" "cmp.Or[contextutil.Constructor]"); SPrim (POp "lit-field" "contextCons: cmp.Or[contextutil.Constructor]( c.ContextConstructor, contextutil.EmptyConstruc"); SPrim (POp "call" "cmp.Or[timeutil.ClockAfter]"); SPrim (POp "lit-field" "clock: cmp.Or[timeutil.ClockAfter](c.Clock, timeutil.SystemClock{})"); SPrim (POp "call" "cmp.Or[ErrorHandler]"); SPrim (POp "lit-field" "errHdlr: cmp.Or[ErrorHandler](c.ErrorHandler, IgnoreErrorHandler{})"); SPrim (POp "lit-field" "refr: c.Refresher"); SPrim (POp "lit-field" "schedule: c.Schedule"); SPrim (POp "lit-field" "refrOnShutdown: c.RefreshOnShutdown"); SReturn].
+  [SPrim (POp "make-chan" "0"); SPrim (POp "lit-field" "%1: make(chan unit)"); SPrim (POp "call" "cmp.Or[contextutil.Constructor]"); SPrim (POp "lit-field" "%3: cmp.Or[contextutil.Constructor]( $1.ContextConstructor, contextutil.EmptyConstru"); SPrim (POp "call" "cmp.Or[timeutil.ClockAfter]"); SPrim (POp "lit-field" "%2: cmp.Or[timeutil.ClockAfter]($1.Clock, timeutil.SystemClock{})"); SPrim (POp "call" "cmp.Or[ErrorHandler]"); SPrim (POp "lit-field" "%4: cmp.Or[ErrorHandler]($1.ErrorHandler, IgnoreErrorHandler{})"); SPrim (POp "lit-field" "%5: $1.Refresher"); SPrim (POp "lit-field" "%6: $1.Schedule"); SPrim (POp "lit-field" "%7: $1.RefreshOnShutdown"); SReturn].
 
 Definition expected_ops_RefreshWorker_Start : list sk :=
   [SPrim (POp "go" "@.refreshInALoop"); SReturn].
 
 Definition expected_ops_RefreshWorker_refreshInALoop : list sk :=
-  [SPrim (POp "defer" "slogutil.RecoverAndLogDefault"); SPrim (POp "call" "@.clock.Now"); SPrim (POp "call" "@.schedule.UntilNext"); SPrim (POp "for" "true"); SLoop [SPrim (POp "select" "recv @.done | recv @.clock.After(waitDur)"); SIf [SReturn] [SIf [SPrim (POp "call" "@.clock.After"); SPrim (POp "call" "@.refresh"); SPrim (POp "if" "err != nil"); SIf [SPrim (POp "call" "@.errHdlr.Handle")] []; SPrim (POp "call" "@.clock.Now"); SPrim (POp "call" "@.schedule.UntilNext")] []]]].
+  [SPrim (POp "defer" "slogutil.RecoverAndLogDefault"); SPrim (POp "call" "@.%2.Now"); SPrim (POp "call" "@.%6.UntilNext"); SPrim (POp "for" "true"); SLoop [SPrim (POp "select" "recv @.%1 | recv @.%2.After($1)"); SIf [SReturn] [SIf [SPrim (POp "call" "@.%2.After"); SPrim (POp "call" "@.refresh"); SPrim (POp "if" "$2 != nil"); SIf [SPrim (POp "call" "@.%4.Handle")] []; SPrim (POp "call" "@.%2.Now"); SPrim (POp "call" "@.%6.UntilNext")] []]]].
 
 Definition expected_ops_RefreshWorker_refresh : list sk :=
-  [SPrim (POp "call" "@.contextCons.New"); SPrim (POp "defer" "cancel"); SPrim (POp "call" "@.refr.Refresh"); SReturn].
+  [SPrim (POp "call" "@.%3.New"); SPrim (POp "defer" "$1"); SPrim (POp "call" "@.%5.Refresh"); SReturn].
 
 Definition expected_ops_RefreshWorker_Shutdown : list sk :=
-  [SPrim (POp "close" "@.done"); SPrim (POp "if" "@.refrOnShutdown"); SIf [SPrim (POp "call" "@.refresh"); SPrim (POp "if" "err != nil"); SIf [SPrim (POp "call" "fmt.Errorf"); SReturn] []] []; SReturn].
+  [SPrim (POp "close" "@.%1"); SPrim (POp "if" "@.%7"); SIf [SPrim (POp "call" "@.refresh"); SPrim (POp "if" "$1 != nil"); SIf [SPrim (POp "call" "fmt.Errorf"); SReturn] []] []; SReturn].
 
 Definition expected_ops_NewJSONHybridHandler : list sk :=
-  [SPrim (POp "call" "json.NewEncoder"); SPrim (POp "call" "enc.SetEscapeHTML"); SPrim (POp "assign" "lvl := slog.LevelInfo"); SPrim (POp "if" "opts != nil && opts.Level != nil"); SIf [SPrim (POp "call" "opts.Level.Level")] []; SPrim (POp "lit-field" "level: lvl"); SPrim (POp "lit-field" "encoder: enc"); SPrim (POp "func-begin" ""); SPrim (POp "call" "newBufferedTextHandler"); SReturn; SPrim (POp "func-end" ""); SPrim (POp "call" "syncutil.NewPool"); SPrim (POp "lit-field" "bufTextPool: syncutil.NewPool(func() (bufTextHdlr *bufferedTextHandler) { return newBufferedT"); SPrim (POp "lit-field" "mu: &sync.Mutex{}"); SPrim (POp "lit-field" "textAttrs: nil"); SReturn].
+  [SPrim (POp "call" "json.NewEncoder"); SPrim (POp "call" "$1.SetEscapeHTML"); SPrim (POp "assign" "$2 := slog.LevelInfo"); SPrim (POp "if" "$3 != nil && $3.Level != nil"); SIf [SPrim (POp "call" "$3.Level.Level")] []; SPrim (POp "lit-field" "%1: $2"); SPrim (POp "lit-field" "%2: $1"); SPrim (POp "func-begin" ""); SPrim (POp "call" "newBufferedTextHandler"); SReturn; SPrim (POp "func-end" ""); SPrim (POp "call" "syncutil.NewPool"); SPrim (POp "lit-field" "%3: syncutil.NewPool(func() ($4 *bufferedTextHandler) { return newBufferedTextHandle"); SPrim (POp "lit-field" "%4: &sync.Mutex{}"); SPrim (POp "lit-field" "%5: nil"); SReturn].
 
 Definition expected_ops_JSONHybridHandler_Enabled : list sk :=
-  [SPrim (POp "call" "@.level.Level"); SReturn].
+  [SPrim (POp "call" "@.%1.Level"); SReturn].
 
 Definition expected_ops_JSONHybridHandler_Handle : list sk :=
-  [SPrim (POp "call" "@.bufTextPool.Get"); SPrim (POp "defer" "@.bufTextPool.Put"); SPrim (POp "call" "bufTextHdlr.reset"); SPrim (POp "call" "r.AddAttrs"); SPrim (POp "call" "bufTextHdlr.handler.Handle"); SPrim (POp "if" "err != nil"); SIf [SPrim (POp "call" "fmt.Errorf"); SReturn] []; SPrim (POp "call" "bufTextHdlr.buffer.Bytes"); SPrim (POp "call" "byteString"); SPrim (POp "assign" "msg = msg[:len(msg)-1]"); SPrim (POp "call" "newJSONHybridMessage"); SPrim (POp "call" "@.mu.Lock"); SPrim (POp "defer" "@.mu.Unlock"); SPrim (POp "call" "@.encoder.Encode"); SReturn].
+  [SPrim (POp "call" "@.%3.Get"); SPrim (POp "defer" "@.%3.Put"); SPrim (POp "call" "$1.reset"); SPrim (POp "call" "$2.AddAttrs"); SPrim (POp "call" "$1.handler.Handle"); SPrim (POp "if" "$3 != nil"); SIf [SPrim (POp "call" "fmt.Errorf"); SReturn] []; SPrim (POp "call" "$1.buffer.Bytes"); SPrim (POp "call" "byteString"); SPrim (POp "assign" "$4 = $4[:len($4)-1]"); SPrim (POp "call" "newJSONHybridMessage"); SPrim (POp "call" "@.%4.Lock"); SPrim (POp "defer" "@.%4.Unlock"); SPrim (POp "call" "@.%2.Encode"); SReturn].
 
 Definition expected_ops_newJSONHybridMessage : list sk :=
-  [SPrim (POp "assign" "severity := ""NORMAL"""); SPrim (POp "if" "lvl >= slog.LevelError"); SIf [SPrim (POp "assign" "severity = ""ERROR""")] []; SPrim (POp "lit-field" "Severity: severity"); SPrim (POp "lit-field" "Message: msg"); SReturn].
+  [SPrim (POp "assign" "$1 := ""NORMAL"""); SPrim (POp "if" "$2 >= slog.LevelError"); SIf [SPrim (POp "assign" "$1 = ""ERROR""")] []; SPrim (POp "lit-field" "Severity: $1"); SPrim (POp "lit-field" "Message: $3"); SReturn].
 
 Definition expected_ops_JSONHybridHandler_WithAttrs : list sk :=
-  [SPrim (POp "lit-field" "level: @.level"); SPrim (POp "lit-field" "encoder: @.encoder"); SPrim (POp "lit-field" "bufTextPool: @.bufTextPool"); SPrim (POp "lit-field" "mu: @.mu"); SPrim (POp "call" "slices.Clip"); SPrim (POp "append" "slices.Clip(h.textAttrs)"); SPrim (POp "lit-field" "textAttrs: append(slices.Clip(h.textAttrs), attrs...)"); SReturn].
+  [SPrim (POp "lit-field" "%1: @.%1"); SPrim (POp "lit-field" "%2: @.%2"); SPrim (POp "lit-field" "%3: @.%3"); SPrim (POp "lit-field" "%4: @.%4"); SPrim (POp "call" "slices.Clip"); SPrim (POp "append" "slices.Clip(h.%5)"); SPrim (POp "lit-field" "%5: append(slices.Clip(h.%5), $1...)"); SReturn].
 
 Definition expected_ops_byteString_MarshalText : list sk :=
   [SReturn].
 
 Definition expected_ops_newBufferedTextHandler : list sk :=
-  [SPrim (POp "call" "bytes.NewBuffer"); SPrim (POp "lit-field" "buffer: buf"); SPrim (POp "call" "slog.NewTextHandler"); SPrim (POp "lit-field" "handler: slog.NewTextHandler(buf, handlerOpts)"); SReturn].
+  [SPrim (POp "call" "bytes.NewBuffer"); SPrim (POp "lit-field" "%1: $1"); SPrim (POp "call" "slog.NewTextHandler"); SPrim (POp "lit-field" "%2: slog.NewTextHandler($1, $2)"); SReturn].
 
 Definition expected_ops_bufferedTextHandler_reset : list sk :=
-  [SPrim (POp "call" "@.buffer.Reset")].
+  [SPrim (POp "call" "@.%1.Reset")].
 
 Definition expected_ops_NewPool : list sk :=
-  [SPrim (POp "if" "newFunc == nil"); SIf [SPrim (POp "call" "fmt.Errorf")] []; SPrim (POp "func-begin" ""); SPrim (POp "call" "newFunc"); SReturn; SPrim (POp "func-end" ""); SPrim (POp "lit-field" "pool: &sync.Pool{ New: func() (v any) { return newFunc() }, }"); SReturn].
+  [SPrim (POp "if" "$1 == nil"); SIf [SPrim (POp "call" "fmt.Errorf")] []; SPrim (POp "func-begin" ""); SPrim (POp "call" "$1"); SReturn; SPrim (POp "func-end" ""); SPrim (POp "lit-field" "%1: &sync.Pool{ New: func() ($2 any) { return $1() }, }"); SReturn].
 
 Definition expected_ops_Pool_Get : list sk :=
-  [SPrim (POp "call" "@.pool.Get"); SReturn].
+  [SPrim (POp "call" "@.%1.Get"); SReturn].
 
 Definition expected_ops_Pool_Put : list sk :=
-  [SPrim (POp "call" "@.pool.Put")].
+  [SPrim (POp "call" "@.%1.Put")].
 
 Definition expected_ops_NewSlicePool : list sk :=
   [SPrim (POp "func-begin" ""); SReturn; SPrim (POp "func-end" ""); SPrim (POp "call" "NewPool"); SReturn].
 
 Definition expected_ops_httputil_Wrap : list sk :=
-  [SPrim (POp "assign" "wrapped = h"); SPrim (POp "for" "i >= 0"); SLoop [SPrim (POp "call" "m.Wrap")]; SReturn].
+  [SPrim (POp "assign" "$1 = $2"); SPrim (POp "for" "$4 >= 0"); SLoop [SPrim (POp "call" "$3.Wrap")]; SReturn].
 
 Definition expected_ops_CopyRequestTo : list sk :=
-  [SPrim (POp "call" "src.WithContext"); SPrim (POp "deref-write" "dst")].
+  [SPrim (POp "call" "$1.WithContext"); SPrim (POp "deref-write" "$2")].
 
 Definition expected_ops_NewLogMiddleware : list sk :=
-  [SPrim (POp "call" "syncutil.NewSlicePool[slog.Attr]"); SPrim (POp "lit-field" "attrPool: syncutil.NewSlicePool[slog.Attr](logMwAttrNum)"); SPrim (POp "func-begin" ""); SReturn; SPrim (POp "func-end" ""); SPrim (POp "call" "syncutil.NewPool"); SPrim (POp "lit-field" "reqPool: syncutil.NewPool(func() (r *http.Request) { return &http.Request{} })"); SPrim (POp "func-begin" ""); SReturn; SPrim (POp "func-end" ""); SPrim (POp "call" "syncutil.NewPool"); SPrim (POp "lit-field" "rwPool: syncutil.NewPool(func() (rw *CodeRecorderResponseWriter) { return &CodeRecorderR"); SPrim (POp "lit-field" "logger: l"); SPrim (POp "lit-field" "lvl: lvl"); SReturn].
+  [SPrim (POp "call" "syncutil.NewSlicePool[slog.Attr]"); SPrim (POp "lit-field" "%1: syncutil.NewSlicePool[slog.Attr](4)"); SPrim (POp "func-begin" ""); SReturn; SPrim (POp "func-end" ""); SPrim (POp "call" "syncutil.NewPool"); SPrim (POp "lit-field" "%2: syncutil.NewPool(func() ($1 *http.Request) { return &http.Request{} })"); SPrim (POp "func-begin" ""); SReturn; SPrim (POp "func-end" ""); SPrim (POp "call" "syncutil.NewPool"); SPrim (POp "lit-field" "%3: syncutil.NewPool(func() ($2 *CodeRecorderResponseWriter) { return &CodeRecorderR"); SPrim (POp "lit-field" "%4: $3"); SPrim (POp "lit-field" "%5: $4"); SReturn].
 
 Definition expected_ops_LogMiddleware_Wrap : list sk :=
-  [SPrim (POp "func-begin" ""); SPrim (POp "call" "time.Now"); SPrim (POp "call" "@.attrsSlicePtr"); SPrim (POp "defer" "@.attrPool.Put"); SPrim (POp "call" "@.logger.Handler"); SPrim (POp "call" "@.logger.Handler().WithAttrs"); SPrim (POp "call" "slog.New"); SPrim (POp "call" "r.Context"); SPrim (POp "call" "slogutil.ContextWithLogger"); SPrim (POp "call" "@.reqPool.Get"); SPrim (POp "defer" "@.reqPool.Put"); SPrim (POp "call" "CopyRequestTo"); SPrim (POp "call" "@.rwPool.Get"); SPrim (POp "defer" "@.rwPool.Put"); SPrim (POp "call" "rw.Reset"); SPrim (POp "call" "l.Log"); SPrim (POp "defer" "@.logFinished"); SPrim (POp "call" "h.ServeHTTP"); SPrim (POp "call" "rw.SetImplicitSuccess"); SPrim (POp "func-end" ""); SPrim (POp "call" "http.HandlerFunc"); SReturn].
+  [SPrim (POp "func-begin" ""); SPrim (POp "call" "time.Now"); SPrim (POp "call" "@.attrsSlicePtr"); SPrim (POp "defer" "@.%1.Put"); SPrim (POp "call" "@.%4.Handler"); SPrim (POp "call" "@.%4.Handler().WithAttrs"); SPrim (POp "call" "slog.New"); SPrim (POp "call" "$1.Context"); SPrim (POp "call" "slogutil.ContextWithLogger"); SPrim (POp "call" "@.%2.Get"); SPrim (POp "defer" "@.%2.Put"); SPrim (POp "call" "CopyRequestTo"); SPrim (POp "call" "@.%3.Get"); SPrim (POp "defer" "@.%3.Put"); SPrim (POp "call" "$2.Reset"); SPrim (POp "call" "$3.Log"); SPrim (POp "defer" "@.logFinished"); SPrim (POp "call" "$4.ServeHTTP"); SPrim (POp "call" "$2.SetImplicitSuccess"); SPrim (POp "func-end" ""); SPrim (POp "call" "http.HandlerFunc"); SReturn].
 
 Definition expected_ops_LogMiddleware_logFinished : list sk :=
-  [SPrim (POp "call" "l.Enabled"); SPrim (POp "if" "l.Enabled(ctx, mw.lvl)"); SIf [SPrim (POp "call" "time.Since"); SPrim (POp "call" "timeutil.Duration"); SPrim (POp "call" "l.Log")] []].
+  [SPrim (POp "call" "$1.Enabled"); SPrim (POp "if" "$1.Enabled($2, mw.%5)"); SIf [SPrim (POp "call" "time.Since"); SPrim (POp "call" "timeutil.Duration"); SPrim (POp "call" "$1.Log")] []].
 
 Definition expected_ops_LogMiddleware_attrsSlicePtr : list sk :=
-  [SPrim (POp "call" "@.attrPool.Get"); SPrim (POp "call" "slog.String"); SPrim (POp "index-write" "attrs"); SPrim (POp "call" "slog.String"); SPrim (POp "index-write" "attrs"); SPrim (POp "call" "slog.String"); SPrim (POp "index-write" "attrs"); SPrim (POp "call" "slog.String"); SPrim (POp "index-write" "attrs"); SReturn].
+  [SPrim (POp "call" "@.%1.Get"); SPrim (POp "call" "slog.String"); SPrim (POp "index-write" "$1"); SPrim (POp "call" "slog.String"); SPrim (POp "index-write" "$1"); SPrim (POp "call" "slog.String"); SPrim (POp "index-write" "$1"); SPrim (POp "call" "slog.String"); SPrim (POp "index-write" "$1"); SReturn].
 
 Definition expected_ops_CRW_SetImplicitSuccess : list sk :=
-  [SPrim (POp "call" "cmp.Or"); SPrim (POp "field-write" "@.code")].
+  [SPrim (POp "call" "cmp.Or"); SPrim (POp "field-write" "@.%2")].
 
 Definition expected_ops_CRW_Reset : list sk :=
-  [SPrim (POp "field-write" "@.rw"); SPrim (POp "field-write" "@.code")].
+  [SPrim (POp "field-write" "@.%1"); SPrim (POp "field-write" "@.%2")].
 
 Definition expected_ops_CRW_Header : list sk :=
-  [SPrim (POp "call" "@.rw.Header"); SReturn].
+  [SPrim (POp "call" "@.%1.Header"); SReturn].
 
 Definition expected_ops_CRW_Write : list sk :=
-  [SPrim (POp "call" "@.rw.Write"); SReturn].
+  [SPrim (POp "call" "@.%1.Write"); SReturn].
 
 Definition expected_ops_CRW_WriteHeader : list sk :=
-  [SPrim (POp "field-write" "@.code"); SPrim (POp "call" "@.rw.WriteHeader")].
+  [SPrim (POp "field-write" "@.%2"); SPrim (POp "call" "@.%1.WriteHeader")].
 
 Definition expected_ops_CRW_Code : list sk :=
   [SReturn].
